@@ -4,7 +4,7 @@ import "testing"
 
 // Witness of the C27 finding fixed by "fix: tpl.Relocate passes errors without a position through":
 // NewEx on a grammar without a document rule must return an error, not panic.
-func TestVerifWitnessRelocateNoPanic(t *testing.T) {
+func TestGovcWitnessRelocateNoPanic(t *testing.T) {
 	for _, src := range []string{"", "// only a comment\n", "x = \"@@\""} {
 		func() {
 			defer func() {
